@@ -76,7 +76,7 @@ Proof.
   apply existsb_exists in E as (a & Ha & Hlt). apply Nat.ltb_lt in Hlt. specialize (O a Ha). lia.
 Qed.
 
-Lemma P_C10_shape c st sh : P_C10 (VList [VInt c; VList st; VInt sh]) = Z.eqb sh 0 && forallb good_step st.
+Lemma P_C10_shape c st sh : P_C10 (VList [VInt c; VList st; VInt sh]) = forallb good_step st.
 Proof. reflexivity. Qed.
 
 (* the hypothesis [input_convs k = Val cs] is not even needed *)
